@@ -27,15 +27,20 @@ META = {
                    'of reversed() calls, distinct or not: the rows the plan denotes are a permutation of the filtered (distinct) rows '
                    'sorted by the intended lexicographic comparator; reversed() negates every key and is an involution; the keyword '
                    'clause selects exactly the rows whose columns equal the given values with None <-> NULL under three-valued logic; '
-                   'count/sum/min/max/avg plans equal the folds over the rows the select returns; getOne is 0/1/many; absent keys '
-                   'give not-found.  The constants of the plan (IS / =, "-", DESC rendering, reverser, COUNT expressions, DISTINCT word, '
-                   'SUM/MIN/MAX/AVG names, accumulateSelect chain, getOne branches, alternate-id miss action) are regenerated from /repo '
+                   'count/sum/min/max/avg plans equal the folds over the rows the select returns; the n-ary helpers AND(*ops)/OR(*ops) denote the '
+                   'three-valued conjunction/disjunction of any number of operands; iteration hands out every fetched row whatever its id; '
+                   'getOne is 0/1/many; absent keys give not-found.  The constants of the plan (IS / =, "-", DESC rendering, reverser, COUNT expressions, DISTINCT word, '
+                   'SUM/MIN/MAX/AVG names, accumulateSelect chain, getOne branches, alternate-id miss action, the connective and the recursive tail of AND()/OR(), '
+                   'the NULL-id guard of Iteration.next) are regenerated from /repo '
                    'on every run; the hand-written plan functions are compared with the real code text-for-text.'),
     'level_note': ('Proved: plan + reference semantics.  Modelled and validated by execution only: that SQLite evaluates WHERE / DISTINCT / '
                    'ORDER BY / aggregates as the reference evaluator does.'),
     'rule': ('cases = (table of 0..8 rows over a 4-value domain with NULLs and duplicates, second table for join filters, query shape: '
              'select/selectBy x filter x order spec x reversed x distinct x chained ops x list/count/sum/min/max/avg/getOne, alternate-id and '
-             'unique-index lookups with present and absent keys), re-checked after interleaved updates and deletes; seeded random after a '
+             'unique-index lookups with present and absent keys; filters with the `&`/`|` operators and nested AND()/OR() calls of 1..5 operands; '
+             'explicit primary keys at the edge of the key domain: 0, negatives, and a string-primary-key class with "" and other strings; '
+             'classes with defaultOrder, cacheValues=False; explicit connection=, lazyColumns), re-checked after interleaved inserts, updates and deletes, '
+             'a pool of SelectResults OBJECTS being kept and asked again (count, iteration, aggregates, getOne) after the mutations; seeded random after a '
              'hand-written corpus; distinct = distinct (table contents, query); non-trivial = the query has a filter, an order, distinct, '
              'an aggregate or a lookup'),
     'trusted': ['reference SQL semantics in Model/Query.lean (three-valued logic, NULLs first, aggregate conventions, DISTINCT) — '
@@ -44,7 +49,9 @@ META = {
     'modelled': ['SQLite engine: WHERE / DISTINCT / ORDER BY / COUNT / SUM / MIN / MAX / AVG (executed, not verified)',
                  'expression rendering beyond the small filter language used here (C03 covers it)',
                  'window (LIMIT/OFFSET) is left out: C10'],
-    'assumptions': ['ids are a key of the table (PRIMARY KEY); used for COUNT(DISTINCT id) = number of distinct rows',
+    'assumptions': ['a SelectResults object is a description of a query, not a snapshot: the model evaluates it as a function of the current table, '
+                    'and the harness ties that by re-evaluating retained objects after mutations',
+                    'ids are a key of the table (PRIMARY KEY); used for COUNT(DISTINCT id) = number of distinct rows',
                     'aggregates of a distinct select follow SQL `F(DISTINCT col)` (distinct column values), as sqlobject/tests/test_aggregates.py pins',
                     'raw-string order keys are single column names (optionally table-qualified); other SQL text is outside the model'],
     'exhaustive': False,
@@ -54,6 +61,12 @@ COLS = ['a', 'bVal', 's', 'fkID', 'alt', 'p']            # python names, table o
 DBN = {'id': 'id', 'a': 'a', 'bVal': 'b_val', 's': 's', 'fkID': 'fk_id', 'alt': 'alt', 'p': 'p'}
 PY_OF_DB = {v: k for k, v in DBN.items()}
 IDX = {c: i for i, c in enumerate(COLS)}
+# ids of the string-primary-key class travel as order-preserving integer codes (SQLite compares TEXT bytewise)
+STR_IDS = ['', ' ', '0', 'A', 'Z', 'k', 'kk', 'z']
+STR_CODE = {x: 1000 + 10 * i for i, x in enumerate(STR_IDS)}
+CODE_STR = {v: k for k, v in STR_CODE.items()}
+S_LIT = {'a': 97, 'b': 98, 'c': 99, 'd': 100}
+DEFAULT = object()          # the default handed to getOne(): distinguishable from a None result
 _env = {}
 
 
@@ -76,20 +89,23 @@ def env():
         _connection = conn
         g = IntCol(default=None)
 
-    def mk(name, default_order):
+    def mk(name, default_order, id_type=int, cache_values=True):
         class sqlmeta:
             defaultOrder = default_order
+            idType = id_type
+            cacheValues = cache_values
         return type(name, (SQLObject,), {
             '_connection': conn, 'sqlmeta': sqlmeta,
             'a': IntCol(default=None), 'bVal': IntCol(default=None), 's': StringCol(default=None),
             'fk': ForeignKey('C11Oth', default=None), 'alt': IntCol(alternateID=True),
             'p': IntCol(default=None), 'pIdx': DatabaseIndex('p', 'fk', unique=True)})
-    classes = {'row': mk('C11Row', None), 'dfl': mk('C11Dfl', '-bVal'), 'dfm': mk('C11Dfm', ['s', '-id'])}
+    classes = {'row': mk('C11Row', None), 'dfl': mk('C11Dfl', '-bVal'), 'dfm': mk('C11Dfm', ['s', '-id']),
+               'str': mk('C11Str', None, str), 'ncv': mk('C11Ncv', None, int, False)}
     C11Oth.createTable()
     for c in classes.values():
         c.createTable()
     _env.update(conn=conn, Oth=C11Oth, classes=classes, LogConn=LogConn,
-                default={'row': None, 'dfl': ['one', ['s', '-bVal']], 'dfm': ['many', [['s', 's'], ['s', '-id']]]})
+                default={'row': None, 'dfl': ['one', ['s', '-bVal']], 'dfm': ['many', [['s', 's'], ['s', '-id']]], 'str': None, 'ncv': None})
     return _env
 
 
@@ -117,6 +133,8 @@ def enc_expr(e):
         return '%s,%s,%s' % (k, enc_expr(e[1]), enc_expr(e[2]))
     if k == 'not':
         return 'not,%s' % enc_expr(e[1])
+    if k in ('andn', 'orn'):
+        return '%s,%d,%s' % (k, len(e[1]), ','.join(enc_expr(x) for x in e[1]))
     raise ValueError(e)
 
 
@@ -214,15 +232,34 @@ def code_of(s):
     return None if s is None else ord(s)
 
 
+def is_str(cls):
+    return cls.sqlmeta.idType is str
+
+
+def id_code(cls, v):
+    """id as stored -> the integer the model and the oracle work with"""
+    if is_str(cls):
+        return STR_CODE[v] if v in STR_CODE else int(v)
+    return v
+
+
+def id_py(cls, code):
+    """integer code -> the id value handed to the real code"""
+    if is_str(cls):
+        return CODE_STR.get(code, str(code))
+    return code
+
+
 def raw_rows(cls):
     conn = env()['conn']
     t = cls.sqlmeta.table
     out = []
     for r in conn.queryAll('SELECT id, a, b_val, s, fk_id, alt, p FROM %s ORDER BY id' % t):
         r = list(r)
+        r[0] = id_code(cls, r[0])
         r[3] = code_of(r[3])
         out.append(tuple(r))
-    return out
+    return sorted(out)
 
 
 def raw_oth():
@@ -236,6 +273,8 @@ def build_operand(cls, o, other=None):
     if o[0] == 'l':
         if other is not None and other[0] == 'c' and other[1] == 's':
             return chr(o[1])
+        if other is not None and other[0] == 'c' and other[1] == 'id':
+            return id_py(cls, o[1])
         return o[1]
     return env()['Oth'].q.g
 
@@ -257,10 +296,14 @@ def build_expr(cls, e):
         return build_operand(cls, e[1]) == None   # noqa: E711
     if k == 'notnull':
         return build_operand(cls, e[1]) != None   # noqa: E711
-    if k == 'and':
-        return AND(build_expr(cls, e[1]), build_expr(cls, e[2]))
-    if k == 'or':
-        return OR(build_expr(cls, e[1]), build_expr(cls, e[2]))
+    if k in ('and', 'or'):
+        a, b = build_expr(cls, e[1]), build_expr(cls, e[2])
+        if len(repr(e)) % 2:          # the operator forms `&` / `|` build the same SQLOp as the helpers
+            return (a & b) if k == 'and' else (a | b)
+        return AND(a, b) if k == 'and' else OR(a, b)
+    if k in ('andn', 'orn'):
+        parts = [build_expr(cls, x) for x in e[1]]
+        return AND(*parts) if k == 'andn' else OR(*parts)
     if k == 'not':
         return NOT(build_expr(cls, e[1]))
     raise ValueError(e)
@@ -300,6 +343,8 @@ def build_kw(cls, kw):
             v = Oth.get(v[1])
         elif k == 's' and v is not None:
             v = chr(v)
+        elif k == 'id' and v is not None:
+            v = id_py(cls, v)
         out[k] = v
     return out
 
@@ -308,10 +353,19 @@ def canon_sql(cls, text):
     t = cls.sqlmeta.table
     names = ['id'] + [DBN[c] for c in COLS]
     text = text.replace(', '.join('%s.%s' % (t, n) for n in names), '*', 1)
+    text = re.sub(r'^SELECT (DISTINCT )?%s\.id FROM' % re.escape(t), r'SELECT \1* FROM', text)      # lazyColumns
     if text.startswith('SELECT ' + ', '.join(names) + ' FROM'):
         text = text.replace(', '.join(names), '*', 1)
-    text = re.sub(r"'([a-z])'", lambda m: str(ord(m.group(1))), text)
-    return text
+    def lit(m):
+        x = m.group(1)
+        if is_str(cls) and x in STR_CODE:
+            return str(STR_CODE[x])
+        if x in S_LIT:
+            return str(S_LIT[x])
+        if x.lstrip('-').isdigit():
+            return x
+        return m.group(0)
+    return re.sub(r"'([^']*)'", lit, text)
 
 
 def exc_out(e):
@@ -323,62 +377,50 @@ def exc_out(e):
     return n
 
 
-def run_impl(cls, q):
-    """-> (canonical sql text or '-', result string, raw ordered ids or None)"""
-    e = env()
-    log = e['LogConn'].log
-    ids = None
+def show_id(cls, obj):
+    return 'None' if obj is None else 'one %d' % id_code(cls, obj.id)
+
+
+def build_sel(cls, q):
+    """the SelectResults object of a 'sel' / 'by' query (without its terminal)"""
+    ckw = {'connection': env()['conn']} if q.get('conn') else {}
+    if q['src'] == 'sel':
+        kwargs = dict(ckw)
+        if q['order'] != 'nodefault':
+            kwargs['orderBy'] = build_order(cls, q['order'])
+        sel = cls.select(build_expr(cls, q['clause']), reversed=q['rev'], distinct=q['dist'], **kwargs)
+    else:
+        sel = cls.selectBy(**dict(build_kw(cls, q['kw']), **ckw))
+    for op in q.get('ops', []):
+        if op[0] == 'rev':
+            sel = sel.reversed()
+        elif op[0] == 'dist':
+            sel = sel.distinct()
+        elif op[0] == 'order':
+            sel = sel.orderBy(build_order(cls, op[1]))
+        elif op[0] == 'filter':
+            sel = sel.filter(build_expr(cls, op[1]))
+    if q.get('lazy'):       # only the id is fetched with the rows; the objects load their columns on demand
+        sel = sel.lazyColumns(True)
+    return sel
+
+
+def eval_term(cls, sel, t):
+    """evaluate one terminal on a (possibly long-lived) SelectResults object
+    -> (canonical sql text or '-', result string, raw ordered ids or None)"""
+    log = env()['LogConn'].log
     text = '-'
     try:
-        if q['src'] == 'alt':
-            del log[:]
-            try:
-                obj = cls.byAlt(q['v'])
-                res = 'None' if obj is None else 'one %d' % obj.id
-            finally:
-                sel = [s for s in log if s.startswith('SELECT')]
-                if sel:
-                    text = canon_sql(cls, sel[0])
-            return text, res, None
-        if q['src'] == 'idx':
-            kw = build_kw(cls, q['kw'])
-            # text first: what selectBy renders for these keywords
-            try:
-                text = canon_sql(cls, str(cls.selectBy(**dict(kw))))
-            except TypeError:
-                text = '-'
-            if q.get('pos') and set(kw) == {'p', 'fk'}:
-                obj = cls.pIdx.get(kw['p'], kw['fk'])
-            else:
-                obj = cls.pIdx.get(**kw)
-            return text, ('None' if obj is None else 'one %d' % obj.id), None
-        if q['src'] == 'sel':
-            kwargs = {}
-            if q['order'] != 'nodefault':
-                kwargs['orderBy'] = build_order(cls, q['order'])
-            sel = cls.select(build_expr(cls, q['clause']), reversed=q['rev'], distinct=q['dist'], **kwargs)
-        else:
-            sel = cls.selectBy(**build_kw(cls, q['kw']))
-        for op in q.get('ops', []):
-            if op[0] == 'rev':
-                sel = sel.reversed()
-            elif op[0] == 'dist':
-                sel = sel.distinct()
-            elif op[0] == 'order':
-                sel = sel.orderBy(build_order(cls, op[1]))
-            elif op[0] == 'filter':
-                sel = sel.filter(build_expr(cls, op[1]))
-        t = q['term']
         if t[0] == 'list':
             text = canon_sql(cls, str(sel))
-            ids = [o.id for o in sel]
-            return text, 'rows' + ''.join(' %d' % i for i in ids), ids
+            ids = [None if o is None else id_code(cls, o.id) for o in sel]
+            return text, 'rows' + ''.join(' %s' % i for i in ids), ids
         if t[0] in ('one', 'one0'):
             text = canon_sql(cls, str(sel))
-            obj = sel.getOne(None) if t[0] == 'one0' else sel.getOne()
-            if t[0] == 'one0' and obj is None:
+            obj = sel.getOne(DEFAULT) if t[0] == 'one0' else sel.getOne()
+            if obj is DEFAULT:
                 return text, 'default', None
-            return text, ('None' if obj is None else 'one %d' % obj.id), None
+            return text, show_id(cls, obj), None
         del log[:]
         try:
             if t[0] == 'count':
@@ -386,7 +428,7 @@ def run_impl(cls, q):
             else:
                 v = getattr(sel, t[0])(build_term(cls, t[1]))
         finally:
-            sels = [s for s in log if s.startswith('SELECT')]
+            sels = [x for x in log if x.startswith('SELECT')]
             if sels:
                 text = canon_sql(cls, sels[-1])
         if t[0] == 'avg':
@@ -404,6 +446,42 @@ def run_impl(cls, q):
         return text, 'int %d' % v, None
     except Exception as ex:   # the real code's exceptions are observable outcomes
         return text, exc_out(ex), None
+
+
+def run_impl(cls, q, keep=None):
+    """-> (canonical sql text or '-', result string, raw ordered ids or None); the SelectResults object
+    built for a 'sel' / 'by' query is appended to `keep` (the pool re-used after later mutations)"""
+    log = env()['LogConn'].log
+    text = '-'
+    try:
+        if q['src'] == 'alt':
+            del log[:]
+            try:
+                res = show_id(cls, cls.byAlt(q['v'], **({'connection': env()['conn']} if q.get('conn') else {})))
+            finally:
+                sel = [x for x in log if x.startswith('SELECT')]
+                if sel:
+                    text = canon_sql(cls, sel[0])
+            return text, res, None
+        if q['src'] == 'idx':
+            kw = build_kw(cls, q['kw'])
+            # text first: what selectBy renders for these keywords
+            try:
+                text = canon_sql(cls, str(cls.selectBy(**dict(kw))))
+            except TypeError:
+                text = '-'
+            ckw = {'connection': env()['conn']} if q.get('conn') else {}
+            if q.get('pos') and set(kw) == {'p', 'fk'}:
+                obj = cls.pIdx.get(kw['p'], kw['fk'], **ckw)
+            else:
+                obj = cls.pIdx.get(**dict(kw, **ckw))
+            return text, show_id(cls, obj), None
+        sel = build_sel(cls, q)
+    except Exception as ex:   # the real code's exceptions are observable outcomes
+        return text, exc_out(ex), None
+    if keep is not None:
+        keep.append(sel)
+    return eval_term(cls, sel, q['term'])
 
 
 # ---------------------------------------------------------------------------------- oracle (pure Python)
@@ -454,6 +532,11 @@ def o_expr(e, row, g):
     if k == 'not':
         v = o_expr(e[1], row, g)
         return None if v is None else (not v)
+    if k in ('andn', 'orn'):
+        vals = [o_expr(x, row, g) for x in e[1]]
+        if k == 'andn':
+            return False if False in vals else (None if None in vals else True)
+        return True if True in vals else (None if None in vals else False)
     if k == 'kw':
         # keyword equalities: None means IS NULL; a value means equal to it (never true for NULL)
         for col, v in e[1]:
@@ -478,6 +561,8 @@ def uses_g(e):
         return uses_g(e[1]) or uses_g(e[2])
     if e[0] == 'not':
         return uses_g(e[1])
+    if e[0] in ('andn', 'orn'):
+        return any(uses_g(x) for x in e[1])
     return False
 
 
@@ -617,7 +702,7 @@ def tie_canon(ids, rows_by_id, keys):
     if ids is None:
         return None
     if not keys:
-        return [((), sorted(ids))]
+        return [((), sorted(ids, key=lambda x: (x is None, x or 0)))]
     out = []
     for i in ids:
         r = rows_by_id.get(i)
@@ -626,7 +711,7 @@ def tie_canon(ids, rows_by_id, keys):
             out[-1][1].append(i)
         else:
             out.append((kt, [i]))
-    return [(k, sorted(v)) for k, v in out]
+    return [(k, sorted(v, key=lambda x: (x is None, x or 0))) for k, v in out]
 
 
 def check_oracle(ctx, desc, exp, res, ids, rows):
@@ -638,6 +723,8 @@ def check_oracle(ctx, desc, exp, res, ids, rows):
         if ids is None:
             return 'the select raised/returned %s; the plain evaluation gives ids %s' % (res, [r[0] for r in exp['rows']])
         want = [r[0] for r in exp['rows']]
+        if None in ids:
+            return 'iteration handed out None for %d row(s): %s; the rows are %s' % (ids.count(None), ids, sorted(want))
         if sorted(want) != sorted(ids):
             return 'ids %s are not a permutation of the filtered%s rows %s' % (ids, ' distinct' if desc['query'].get('dist') else '', sorted(want))
         by_id = {r[0]: r for r in rows}
@@ -703,16 +790,35 @@ def gen_table(rng, n=None):
             else:
                 used.add((p, fk))
         rows.append([a, b, s, fk, alts[i], p])
-    return {'cls': rng.choice(['row', 'row', 'dfl', 'dfm']), 'dom': dom, 'rows': rows, 'oth': oth}
+    cls_key = rng.choice(['row', 'row', 'dfl', 'dfm', 'str', 'str', 'ncv'])
+    tbl = {'cls': cls_key, 'dom': dom, 'rows': rows, 'oth': oth}
+    # explicit primary keys at the edge of the key domain: 0, negatives; '' and other strings for the str class
+    if cls_key == 'str':
+        tbl['ids'] = rng.sample(sorted(CODE_STR), n)
+    elif rng.random() < 0.5:
+        tbl['ids'] = rng.sample(range(-3, 10), n)
+        if n and 0 not in tbl['ids'] and rng.random() < 0.5:
+            tbl['ids'][rng.randrange(n)] = 0
+    if n_oth and rng.random() < 0.4:
+        tbl['oth_ids'] = rng.sample(range(-2, 6), n_oth)
+    return tbl
+
+
+def id_vals(tbl):
+    """literals worth comparing the id column with"""
+    if tbl['cls'] == 'str':
+        return sorted(CODE_STR)
+    return list(tbl.get('ids') or []) + tbl['dom'] + [0, 1, 2]
 
 
 INT_COLS = ['a', 'bVal', 'p', 'alt', 'fkID', 'id']
 
 
-def gen_expr(rng, dom, depth, allow_join):
+def gen_expr(rng, tbl, depth, allow_join):
+    dom = tbl['dom']
     r = rng.random()
     vals = dom + [dom[0] + 1, 1]
-    if depth <= 0 or r < 0.45:
+    if depth <= 0 or r < 0.4:
         k = rng.random()
         if k < 0.12:
             c = rng.choice(['a', 'bVal', 's', 'fkID', 'p'])
@@ -725,12 +831,19 @@ def gen_expr(rng, dom, depth, allow_join):
             return ['cmp', rng.choice(['eq', 'ne', 'lt', 'le', 'gt', 'ge']), ['c', 's'], ['l', rng.choice([97, 98, 99, 100])]]
         if k < 0.43:
             return ['tt']
-        return ['cmp', rng.choice(['eq', 'eq', 'ne', 'lt', 'le', 'gt', 'ge']), ['c', rng.choice(INT_COLS)], ['l', rng.choice(vals)]]
-    if r < 0.7:
-        return ['and', gen_expr(rng, dom, depth - 1, allow_join), gen_expr(rng, dom, depth - 1, allow_join)]
+        c = rng.choice(INT_COLS)
+        lit = rng.choice(id_vals(tbl)) if c == 'id' else rng.choice(vals)
+        return ['cmp', rng.choice(['eq', 'eq', 'ne', 'lt', 'le', 'gt', 'ge']), ['c', c], ['l', lit]]
+    sub = lambda: gen_expr(rng, tbl, depth - 1, allow_join)     # noqa: E731
+    if r < 0.55:
+        return ['and', sub(), sub()]
+    if r < 0.67:
+        return ['or', sub(), sub()]
+    if r < 0.78:       # the helper functions AND(*ops) / OR(*ops) with 1..5 operands (nesting through `sub`)
+        return ['orn', [sub() for _ in range(rng.choice([1, 3, 3, 3, 4, 5]))]]
     if r < 0.88:
-        return ['or', gen_expr(rng, dom, depth - 1, allow_join), gen_expr(rng, dom, depth - 1, allow_join)]
-    return ['not', gen_expr(rng, dom, depth - 1, allow_join)]
+        return ['andn', [sub() for _ in range(rng.choice([1, 3, 3, 3, 4, 5]))]]
+    return ['not', sub()]
 
 
 STR_KEYS = ['a', 'bVal', 's', 'fkID', 'alt', 'p', 'b_val', 'fk_id', 'id', 'c11.id', 'c11.b_val', 'c11.a']
@@ -763,7 +876,8 @@ def gen_order(rng, table, malformed=False):
     return ['many', [gen_arg(rng, table, malformed) for _ in range(n)]]
 
 
-def gen_kw(rng, dom, n_oth_ids, malformed=False):
+def gen_kw(rng, tbl, n_oth_ids, malformed=False):
+    dom = tbl['dom']
     vals = [None] + dom
     kw = []
     keys = rng.sample(['a', 'bVal', 's', 'fkID', 'fk', 'p', 'alt', 'id'], rng.choice([0, 1, 1, 2, 2, 3]))
@@ -781,7 +895,7 @@ def gen_kw(rng, dom, n_oth_ids, malformed=False):
             else:
                 v = rng.choice([None, None, 9999])
         elif k == 'id':
-            v = rng.randint(1, 3)       # replaced by a live id by the caller when possible
+            v = rng.choice(id_vals(tbl))       # replaced by a live id by the caller when possible
         elif k == 'alt':
             v = rng.randint(-2, 11)
         else:
@@ -790,13 +904,22 @@ def gen_kw(rng, dom, n_oth_ids, malformed=False):
     return kw
 
 
-def gen_term_target(rng, table):
-    if rng.random() < 0.5:
-        return ['f', rng.choice(['a', 'bVal', 'p', 'alt', 'fkID', 'id', 'a', 'bVal'])]
+def gen_term_target(rng, table, str_ids=False):
+    if rng.random() < 0.5:     # (a TEXT id cannot be summed)
+        return ['f', rng.choice(['a', 'bVal', 'p', 'alt', 'fkID', 'a' if str_ids else 'id', 'a', 'bVal'])]
     return ['k', rng.choice(['a', 'b_val', 'p', 'alt', table + '.b_val', 'fk_id'])]
 
 
 def gen_query(rng, tbl, table, oth_ids, live_ids, malformed=False):
+    q = gen_query0(rng, tbl, table, oth_ids, live_ids, malformed)
+    if rng.random() < 0.2:
+        q['conn'] = True        # explicit connection= (the same connection)
+    if q['src'] in ('sel', 'by') and rng.random() < 0.15:
+        q['lazy'] = True
+    return q
+
+
+def gen_query0(rng, tbl, table, oth_ids, live_ids, malformed=False):
     dom = tbl['dom']
     r = rng.random()
     if r < 0.07:
@@ -818,13 +941,13 @@ def gen_query(rng, tbl, table, oth_ids, live_ids, malformed=False):
     q = {}
     if r < 0.4:
         q['src'] = 'by'
-        q['kw'] = gen_kw(rng, dom, oth_ids, malformed)
+        q['kw'] = gen_kw(rng, tbl, oth_ids, malformed)
         for kv in q['kw']:
             if kv[0] == 'id' and live_ids and rng.random() < 0.7:
                 kv[1] = rng.choice(live_ids)
     else:
         q['src'] = 'sel'
-        q['clause'] = None if rng.random() < 0.2 else gen_expr(rng, dom, rng.choice([0, 1, 1, 2]), True)
+        q['clause'] = None if rng.random() < 0.2 else gen_expr(rng, tbl, rng.choice([0, 1, 1, 2, 2, 3]), True)
         q['order'] = gen_order(rng, table, malformed)
         q['rev'] = rng.random() < 0.25
         q['dist'] = rng.random() < 0.3
@@ -843,7 +966,7 @@ def gen_query(rng, tbl, table, oth_ids, live_ids, malformed=False):
             if ops[-1][1] == 'nodefault':
                 ops[-1][1] = None
         else:
-            ops.append(['filter', None if rng.random() < 0.1 else gen_expr(rng, dom, rng.choice([0, 1]), join_ok)])
+            ops.append(['filter', None if rng.random() < 0.1 else gen_expr(rng, tbl, rng.choice([0, 1, 2]), join_ok)])
     q['ops'] = ops
     k = rng.random()
     if k < 0.5:
@@ -851,16 +974,24 @@ def gen_query(rng, tbl, table, oth_ids, live_ids, malformed=False):
     elif k < 0.62:
         q['term'] = ['count']
     elif k < 0.9:
-        q['term'] = [rng.choice(['sum', 'min', 'max', 'avg']), gen_term_target(rng, table)]
+        q['term'] = [rng.choice(['sum', 'min', 'max', 'avg']), gen_term_target(rng, table, tbl['cls'] == 'str')]
     else:
         q['term'] = [rng.choice(['one', 'one0'])]
     return q
 
 
 def gen_mutation(rng, tbl, live_ids):
-    if not live_ids:
-        return None
     vals = [None] + tbl['dom']
+    if not live_ids or rng.random() < 0.25:
+        # insert: explicit id when the table uses explicit ids (free value of the key domain), fresh alt, no index clash
+        new_id = None
+        if tbl.get('ids') is not None:
+            free = [c for c in (sorted(CODE_STR) if tbl['cls'] == 'str' else range(-3, 10)) if c not in live_ids]
+            if not free:
+                return None
+            new_id = rng.choice(free)
+        tbl['fresh'] = tbl.get('fresh', 50) + 1
+        return ['ins', new_id, [rng.choice(vals), rng.choice(vals), rng.choice([None, 97, 98, 99]), None, tbl['fresh'], None]]
     i = rng.choice(live_ids)
     r = rng.random()
     if r < 0.3:
@@ -888,15 +1019,22 @@ def load_table(tbl):
     except Exception:
         pass
     conn.cache.clear()
-    oth_objs = [Oth(g=g) for g in tbl['oth']]
-    for a, b, s, fk, alt, p in tbl['rows']:
-        cls(a=a, bVal=b, s=s_of(s), fk=(oth_objs[fk] if fk is not None else None), alt=alt, p=p)
+    oth_ids = tbl.get('oth_ids') or [None] * len(tbl['oth'])
+    oth_objs = [Oth(g=g, **({} if i is None else {'id': i})) for g, i in zip(tbl['oth'], oth_ids)]
+    ids = tbl.get('ids') or [None] * len(tbl['rows'])
+    for (a, b, s, fk, alt, p), i in zip(tbl['rows'], ids):
+        extra = {} if i is None else {'id': id_py(cls, i)}
+        cls(a=a, bVal=b, s=s_of(s), fk=(oth_objs[fk] if fk is not None else None), alt=alt, p=p, **extra)
     return cls, [o.id for o in oth_objs]
 
 
 def apply_mutation(cls, m):
     try:
-        obj = cls.get(m[1])
+        if m[0] == 'ins':
+            a, b, s, fk, alt, p = m[2]
+            cls(a=a, bVal=b, s=s_of(s), fk=None, alt=alt, p=p, **({} if m[1] is None else {'id': id_py(cls, m[1])}))
+            return 'ok'
+        obj = cls.get(id_py(cls, m[1]))
         if m[0] == 'del':
             obj.destroySelf()
         else:
@@ -931,14 +1069,29 @@ def kind_of(q):
     return '%s:%s%s' % (q['src'], t if t in ('list', 'count', 'one', 'one0') else 'agg', extra)
 
 
+def tbl_spec(tbl):
+    return {k: tbl[k] for k in ('cls', 'dom', 'rows', 'oth', 'ids', 'oth_ids') if k in tbl}
+
+
 def run_table(ctx, tbl, phases, tag):
     """phases: list of (mutations, queries); each of the two is a list of concrete items or a number
-    of items to draw (with ctx.rng) when the phase starts.  Everything goes to the model in one batch."""
+    of items to draw (with ctx.rng) when the phase starts.  Everything goes to the model in one batch.
+
+    Some of the SelectResults objects built in a phase are kept in a pool and evaluated again
+    (count, iteration, aggregates, getOne) on the SAME object after the mutations of the later phases:
+    a select is a description of a query, not a snapshot."""
     rng = ctx.rng
+    spec = json.loads(json.dumps(tbl_spec(tbl)))
     cls, oth_ids = load_table(tbl)
     table = cls.sqlmeta.table
     lines = [schema_line(tbl['cls'])]
-    work = []           # (phase rows, gs, query, impl outcome, line index)
+    work = []           # (phase rows, gs, query, impl outcome, line index, replay steps)
+    pool = []           # {'q': query, 'sel': SelectResults, 'steps': history of this object}
+    muts_so_far = []
+
+    def evaluate(rows, gs_pair, q, outcome, steps, reused):
+        lines.append(enc_query(q))
+        work.append((rows, gs_pair, q, outcome, len(lines) - 1, {'table': spec, 'steps': list(steps)}, reused))
     for muts, queries in phases:
         if isinstance(muts, int):
             ids = [r[0] for r in raw_rows(cls)]
@@ -949,25 +1102,50 @@ def run_table(ctx, tbl, phases, tag):
                     drawn.append(m)
                     if m[0] == 'del':
                         ids.remove(m[1])
+                    elif m[0] == 'ins' and m[1] is not None:
+                        ids.append(m[1])
             muts = drawn
         for m in muts:
             apply_mutation(cls, m)
+        muts_so_far.extend(muts)
         rows = raw_rows(cls)
         oth_rows = raw_oth()
         gs = [g for _, g in oth_rows]
         lines.append(rows_line(rows))
         lines.append(oth_line(gs))
+        # the pooled objects, built before these mutations, must answer for the table as it is now
+        for ent in pool:
+            ent['steps'].extend(['mut', m] for m in muts)
+            terms = [['count'], ['list'],
+                     rng.choice([[rng.choice(['sum', 'min', 'max', 'avg']), gen_term_target(rng, table, tbl['cls'] == 'str')],
+                                 ['one0'], ['one']]),
+                     ['count']]
+            for t in terms:
+                q2 = dict(ent['q'], term=t)
+                out = eval_term(cls, ent['sel'], t)
+                ent['steps'].append(['eval', t])
+                evaluate(rows, (gs, oth_rows), q2, out, ent['steps'], True)
         if isinstance(queries, int):
             tbl['cur'] = [list(r[1:]) for r in rows]
             queries = [gen_query(rng, tbl, table, oth_ids, [r[0] for r in rows], rng.random() < 0.06)
                        for _ in range(queries)]
         for q in queries:
-            lines.append(enc_query(q))
-            work.append((rows, (gs, oth_rows), q, run_impl(cls, q), len(lines) - 1))
+            keep = [] if (len(pool) < 4 and q['src'] in ('sel', 'by') and rng.random() < 0.6) else None
+            out = run_impl(cls, q, keep)
+            steps = [['mut', m] for m in muts_so_far] + [['build', q], ['eval', q.get('term')]]
+            evaluate(rows, (gs, oth_rows), q, out, steps, False)
+            if keep:
+                ent = {'q': q, 'sel': keep[0], 'steps': steps}
+                pool.append(ent)
+                if q['term'] != ['count']:      # a first count() on the object that will be asked again later
+                    q2 = dict(q, term=['count'])
+                    out = eval_term(cls, ent['sel'], ['count'])
+                    ent['steps'].append(['eval', ['count']])
+                    evaluate(rows, (gs, oth_rows), q2, out, ent['steps'], True)
     outs = ctx.model(lines)
-    for rows, (gs, oth_rows), q, (text, res, ids), li in work:
+    for rows, (gs, oth_rows), q, (text, res, ids), li, rp, reused in work:
         desc = {'cls': tbl['cls'], 'rows': [list(r) for r in rows], 'oth': gs, 'oth_rows': [list(r) for r in oth_rows],
-                'query': q, 'line': lines[li], 'tag': tag}
+                'query': q, 'line': lines[li], 'tag': tag, 'replay': rp, 'reused_object': reused}
         exp = None
         try:
             exp = oracle(tbl['cls'], rows, gs, q)
@@ -976,11 +1154,12 @@ def run_table(ctx, tbl, phases, tag):
         ctx.case((tuple(rows), tuple(gs), lines[li]), nontrivial=not is_trivial(q),
                  sample={'table': desc['rows'], 'oth': gs, 'query': lines[li], 'sql': text,
                          'impl': res if not isinstance(res, tuple) else 'ratio %s' % res[1]},
-                 kind=kind_of(q))
+                 kind=kind_of(q) + ('+reused-object' if reused else ''))
         fail = check_oracle(ctx, desc, exp, res, ids, rows)
         if fail:
-            ctx.oracle_fail('C11:%s:%s' % (kind_of(q), lines[li]), '%s on table %s (oth %s): %s'
-                            % (lines[li], desc['rows'], gs, fail), desc)
+            ctx.oracle_fail('C11:%s:%s' % (kind_of(q), lines[li]), '%s%s on table %s (oth %s): %s'
+                            % (lines[li], ' [same SelectResults object evaluated again after %d mutation(s)]'
+                               % sum(1 for st in rp['steps'] if st[0] == 'mut') if reused else '', desc['rows'], gs, fail), desc)
         if exp is None:
             ctx.count('outside-property (malformed) shapes')
         if outs is None:
@@ -1001,7 +1180,7 @@ def run_table(ctx, tbl, phases, tag):
         if ids is not None and mres.startswith('rows'):
             keys = exp['keys'] if exp and exp['kind'] == 'rows' else []
             by_id = {r[0]: r for r in rows}
-            mids = [int(x) for x in mres.split()[1:]]
+            mids = [None if x == 'None' else int(x) for x in mres.split()[1:]]
             ctx.compare('result rows (modulo ties): model = SQLite', desc,
                         repr(tie_canon(mids, by_id, keys)), repr(tie_canon(ids, by_id, keys)))
         else:
@@ -1027,32 +1206,39 @@ def run(ctx):
     rng = ctx.rng
     for fn, c in corpus_cases():
         run_table(ctx, c['table'], [(ph.get('mutations', []), ph['queries']) for ph in c['phases']], 'corpus:' + fn)
-    n_tables = ctx.budget(800, 20000)
+    n_tables = ctx.budget(550, 14000)
     for _ in range(n_tables):
         tbl = gen_table(rng)
-        phases = [(0, 8)] + [(rng.choice([1, 2, 3]), 8) for _ in range(rng.choice([0, 1, 2]))]
+        phases = [(0, 8)] + [(rng.choice([1, 2, 3]), 6) for _ in range(rng.choice([0, 1, 1, 2]))]
         run_table(ctx, tbl, phases, 'random')
 
 
 def replay(case):
     env()
-    tbl = {'cls': case['cls'], 'dom': [0, 1, 2], 'oth': [], 'rows': []}
+    rp = case['replay']
+    tbl = dict(rp['table'])
     cls, oth_ids = load_table(tbl)
-    conn = env()['conn']
-    for i, g in case.get('oth_rows', []):
-        conn.query('INSERT INTO %s (id, g) VALUES (%d, %s)' % (env()['Oth'].sqlmeta.table, i, 'NULL' if g is None else g))
-    # restore the exact rows (ids included) with raw INSERTs, independent of the ORM
-    for r in case['rows']:
-        r = list(r)
-        r[3] = s_of(r[3])
-        conn.query('INSERT INTO %s (id, a, b_val, s, fk_id, alt, p) VALUES (%s)'
-                   % (cls.sqlmeta.table, ', '.join('NULL' if v is None else repr(v) for v in r)))
-    conn.cache.clear()
+    sel = None
+    q = case['query']
+    out = ('-', 'nothing evaluated', None)
+    for st in rp['steps']:
+        if st[0] == 'mut':
+            apply_mutation(cls, st[1])
+        elif st[0] == 'build':
+            keep = []
+            out = run_impl(cls, dict(st[1], term=['list']), keep)
+            sel = keep[0] if keep else None
+            if sel is None:
+                out = run_impl(cls, q)
+        elif st[0] == 'eval' and sel is not None:
+            out = eval_term(cls, sel, st[1])
+    if not any(st[0] == 'build' for st in rp['steps']):
+        out = run_impl(cls, q)
+    text, res, ids = out
     rows = raw_rows(cls)
     gs = [g for _, g in raw_oth()]
-    q = case['query']
-    text, res, ids = run_impl(cls, q)
     exp = oracle(case['cls'], rows, gs, q)
     fail = check_oracle(None, {'query': q}, exp, res, ids, rows)
-    return fail is None, 'query  : %s\nsql    : %s\nimpl   : %s\noracle : %s\n%s' % (
-        case.get('line'), text, res, {k: v for k, v in (exp or {}).items() if k != 'rows'}, fail or 'agrees')
+    return fail is None, 'history: %s\nquery  : %s\nsql    : %s\nimpl   : %s\ntable  : %s\noracle : %s\n%s' % (
+        [st if st[0] != 'build' else ['build'] for st in rp['steps']], case.get('line'), text, res, rows,
+        {k: v for k, v in (exp or {}).items() if k != 'rows'}, fail or 'agrees')
